@@ -4,6 +4,7 @@ import (
 	"fmt"
 	"reflect"
 	"strings"
+	"time"
 
 	"github.com/goghcrow/go-co/seq"
 	"verif/core"
@@ -590,15 +591,44 @@ func C08(tier string) *core.Report {
 			jobs = append(jobs, j)
 		}
 	}
+	// sharing templates: one subterm X (a yielding term of size 2..3) used at several positions with
+	// different continuations; explored with every distinct subterm built once (one Seq value)
+	shareN := 0
+	for n := 2; n <= 3; n++ {
+		for _, x := range enumTerms(n, memo) {
+			if !hasKind(x, "Bind") && !hasKind(x, "BindRecv") || spins(x) {
+				continue
+			}
+			for _, tpl := range []*term{
+				{K: "Combine", A: x, B: x},
+				{K: "Combine", A: &term{K: "Combine", A: x, B: x}, B: x},
+				{K: "While", A: &term{K: "Combine", A: x, B: x}},
+				{K: "Combine", A: x, B: &term{K: "Combine", A: &term{K: "Delay", A: &term{K: "Normal"}}, B: x}},
+				{K: "Combine", A: &term{K: "Loop", A: &term{K: "Combine", A: x, B: &term{K: "Break"}}}, B: x},
+			} {
+				if spins(tpl) {
+					continue
+				}
+				k := 0
+				jobs = append(jobs, job{t: clone(tpl, &k), lite: true, shared: shareStructure(tpl, map[string]int{})})
+				shareN++
+			}
+		}
+	}
 	ops4 := opStrings8(4)
 	long := []string{strings.Repeat("M", 12), strings.Repeat("S", 6)}
 	results := make([]res8, len(jobs))
-	parallel(len(jobs), func(i int) {
+	scratch := make([]res8, len(jobs))
+	hung, skipped := parallelTimeout(len(jobs), 90*time.Second, func(i int) {
 		j := jobs[i]
-		rs := &results[i]
+		rs := &scratch[i]
+		defer func() { results[i] = *rs }()
 		rs.distinct = map[string]bool{}
 		if j.lite {
 			explore8(j.t, long[:1], D, false, 1, rs)
+			if rs.fail == nil && j.shared != nil {
+				explore8(j.shared, []string{strings.Repeat("M", 12), "MSMS", "SSSS"}, D, true, -1, rs)
+			}
 			return
 		}
 		explore8(j.t, append(append([]string{}, ops4...), long...), D, true, 1, rs)
@@ -614,6 +644,16 @@ func C08(tier string) *core.Report {
 	nodes, execs, events, distinct, full, lite := 0, 0, 0, 0, 0, 0
 	var termFails []core.Failure
 	byKey := map[string]*term{}
+	for _, i := range hung {
+		// the real term runs away without logging an event (the fuel cannot stop it); the reference never does
+		termFails = append(termFails, core.Failure{Key: jobs[i].t.String(), Kind: "hang", Detail: "exploration of the term does not terminate within 90 s",
+			What: "the real seq term loops without producing an event where the interpreter terminates"})
+		byKey[jobs[i].t.String()] = jobs[i].t
+		results[i] = res8{distinct: map[string]bool{}}
+	}
+	if skipped > 0 {
+		r.NotExhaustive(fmt.Sprintf("%d terms not explored after 8 runaway executions", skipped))
+	}
 	for i, rs := range results {
 		nodes += rs.nodes
 		execs += rs.execs
@@ -664,7 +704,11 @@ func C08(tier string) *core.Report {
 	}
 	lawRes := make([]res8, len(laws))
 	lawSkipped := make([]bool, len(laws))
-	parallel(len(laws), func(i int) {
+	if len(hung) >= 8 {
+		// runaway executions are still spinning: the laws would only add more of them
+		laws = nil
+	}
+	lawHung, _ := parallelTimeout(len(laws), 60*time.Second, func(i int) {
 		lw := laws[i]
 		if spins(lw.l) || spins(lw.rr) {
 			lawSkipped[i] = true
@@ -716,8 +760,16 @@ func C08(tier string) *core.Report {
 			}
 		}
 	})
+	for _, i := range lawHung {
+		lawSkipped[i] = true
+		r.Fail(core.Failure{Key: laws[i].l.String() + " == " + laws[i].rr.String(), Kind: "hang", Detail: "law instance does not terminate within 60 s",
+			What: "a seq term loops without producing an event"})
+	}
 	lawCount := 0
 	for i, rs := range lawRes {
+		if i >= len(laws) {
+			break
+		}
 		if lawSkipped[i] {
 			continue
 		}
@@ -735,6 +787,7 @@ func C08(tier string) *core.Report {
 	r.Set("terms_full", full)
 	r.Set("terms_moveNext_only_no_injection", lite)
 	r.Set("terms_pruned_silent_spin", pruned)
+	r.Set("sharing_templates", shareN)
 	r.Set("law_instances", lawCount)
 	r.Set("distinct_observations", distinct)
 	r.Set("bounds", map[string]any{"term_size_full": maxFull, "term_size_lite": maxLite, "answer_depth": D, "fuel": fuel8,
